@@ -6,6 +6,7 @@ import (
 	"fmt"
 	"sync"
 	"testing"
+	"time"
 
 	"github.com/btcsuite/btcd/chaincfg/chainhash"
 	goelectrum "github.com/checksum0/go-electrum/electrum"
@@ -52,7 +53,12 @@ func TestC20RpcCsvWatcher(t *testing.T) {
 		pre := rapid.SampledFrom([]uint32{0, 0, csv - 2, csv - 1, csv, csv + 5}).Draw(t, "blocksBeforeRegistration")
 		c.Mine(pre)
 		obsStart = c.SnapCount()
+		callsBefore := c.Calls()
 		w.AddWaitForCsvTx("swap1", txid, 0, 1000, csv, nil)
+		// the registration looks at the chain once on a goroutine of its own ("already past csv?"): let
+		// it finish, so that its rpc call and a possible report do not interleave with the history below
+		waitUntil(func() bool { return c.Calls() > callsBefore }, 300*time.Millisecond)
+		time.Sleep(500 * time.Microsecond)
 		ops = append(ops, fmt.Sprintf("register-after(%d)", pre))
 		steps := rapid.IntRange(1, 10).Draw(t, "steps")
 		for i := 0; i < steps; i++ {
@@ -109,6 +115,10 @@ func TestC20RpcCsvWatcher(t *testing.T) {
 		c.NoteNotification(tip)
 		_ = w.HandleCsvTx(uint64(tip))
 		desc := fmt.Sprintf("csv=%d ops=%v", csv, ops)
+		// a report that is being delivered right now (in-flight notification) may need a moment
+		if confs, _ := c.Depth(txid); confs >= csv && !classes["spent"] {
+			waitUntil(func() bool { mu.Lock(); defer mu.Unlock(); return len(calls) > 0 }, 300*time.Millisecond)
+		}
 		mu.Lock()
 		got := append([]snap{}, calls...)
 		mu.Unlock()
